@@ -104,6 +104,12 @@ def mols_for_roundtrip(tier):
             m = MoleculeContainer()
             m.add_atom(cls(iso), 1)
             out.append(('%s isotope %s' % (cls.__name__, iso), m))
+    # one atom carrying two or three of isotope / radical / charge (each has its own property line in V2000)
+    for s in ('C[13CH]C |^1:1|', '[13CH3] |^1:0|', '[13CH2+]C', '[15NH3+]C', 'C[13CH-]C', '[56Fe+4]', '[57Fe-4]', '[18O-]C', '[13CH2]C[15NH3+] |^1:0|', '[2H][13C]([2H])[2H] |^1:1|', '[Ti+4]', '[46Ti+4]', 'C[N+]([O-])=O'):
+        try:
+            out.append((s, smiles(s)))
+        except Exception:
+            pass
     for s in ('C[CH2] |^1:1|', '[CH3] |^1:0|', 'C~[Fe]', 'CC#N', 'C=C', 'c1ccccc1', 'c1ccncc1', 'C[N+](C)(C)C', 'CC(=O)[O-].[Na+]', '[13CH3][2H]', 'C1CC1', 'N#C[Fe-4](C#N)(C#N)(C#N)(C#N)C#N'):
         try:
             out.append((s, smiles(s)))
@@ -129,6 +135,8 @@ def stereo_mols(tier):
             fam.append(t_.format(*cmb))
     fam += [s for s in M.corpus(stride=16 if tier == 'quick' else 4) if ('@' in s or '/' in s)]
     for s in fam:
+        if '=C=C=' in s and ('/' in s or '\\' in s):
+            continue   # cis/trans of a cumulene lives in the 2D geometry only, and the layout engine used here (RDKit) does not know this kind of stereo
         rd = Chem.MolFromSmiles(s)
         if rd is None:
             continue
@@ -631,6 +639,28 @@ def run_mixed_files(shard):
                     except Exception as e:
                         acc.fail('indexed access raised %s in a mixed file :: %s' % (type(e).__name__, fmt), case=tag)
                 acc.outcomes[fmt] += 1
+            # two writer sessions on one path, the second one appending: the file reads as the concatenation of both sessions
+            for i, j in itertools.product(range(len(pool)), repeat=2):
+                acc.states += 1
+                acc.transitions += 1
+                tag = '%s | %s then append %s' % (fmt, pool[i].name, pool[j].name)
+                p = os.path.join(d, 'a.%s' % ext)
+                if os.path.exists(p):
+                    os.remove(p)
+                try:
+                    with wcls(p) as w:
+                        w.write(pool[i])
+                    with wcls(p, append=True) as w:
+                        w.write(pool[j])
+                    got = list(rcls(p))
+                except Exception as e:
+                    acc.fail('appending to a file raised %s :: %s' % (type(e).__name__, fmt), case=tag)
+                    continue
+                exp = [pool[i], pool[j]]
+                if len(got) != 2 or any(str(a_) != str(b_) or {k_: norm_meta(v_) for k_, v_ in a_.meta.items()} != {k_: norm_meta(v_) for k_, v_ in b_.meta.items() if not k_.startswith('chython_') or k_ == 'chython_unparsed_metadata'}
+                                        for a_, b_ in zip(exp, got)):
+                    acc.fail('a file written in two sessions (append=True) does not read as both records with their own metadata :: %s' % fmt, case=tag, got=len(got))
+                acc.outcomes[fmt + ' append'] += 1
     finally:
         shutil.rmtree(d, ignore_errors=True)
     acc.sample({'records': [b[0] for b in base] + ['rxn-nometa', 'rxn-meta'], 'files': 'every ordered selection of 3'})
@@ -696,7 +726,7 @@ def plan(tier, seed):
 
 def replay(rec):
     key = rec['key']
-    if 'mixed file' in key:
+    if 'mixed file' in key or 'two sessions' in key or 'appending to a file' in key:
         accs = [run_mixed_files(0)]
     elif 'wrapped V3000' in key:
         accs = [run_wrapped_v3000(0)]
